@@ -217,6 +217,10 @@ pub fn run(ctx: &Ctx) -> Report {
         if let Err((sig, d)) = free_running(*r, sd) { rep.acc.violation(sig, format!("u:{ri}:{sd}"), d); }
         if r.lo >= 1 { rep.acc.evals += 1; rep.acc.count("free_running_generator_cases", 1); if let Err((sig, d)) = free_running_spelled(*r, sd, true) { rep.acc.violation(format!("excluded-start:{sig}"), format!("ux:{ri}:{sd}"), d); } }
     } }
+    for (ri, r) in rs.iter().enumerate() { for k in 0..12u8 {
+        rep.acc.evals += 1; rep.acc.count("range_spelling_cases", 1);
+        if let Err((sig, d)) = spelled(*r, k % 6, k >= 6) { rep.acc.violation(sig, format!("sp:{ri}:{k}"), d); }
+    } }
     rep.bound("ranges", Json::i(nr)); rep.bound("polls", Json::i(polls)); rep.bound("event_sets", Json::i(ne_eff)); rep.bound("samples_branched", Json::i(7));
     rep.require(rep.acc.nontrivial > 1000 && rep.acc.outcomes.len() > 100, "many distinct firing patterns explored");
     rep.assume("the free_running_generator_cases (timer on its own random generator, 116 range x seed cases of 4000 polls) are a sound membership test on sampled draws, NOT an exhaustive exploration; everything else reported here is enumerated exhaustively through hook H2");
@@ -224,6 +228,36 @@ pub fn run(ctx: &Ctx) -> Report {
     rep
 }
 
+/// Every way a caller can spell the bounds of the same set of intervals (`a..b`, `a..=b`, excluded start, unbounded start from 0): whenever
+/// the device consults its generator (hook H2 records the request and answers with the smallest value), the set of values it asks for must
+/// be the configured set. Deterministic: no draw is left to the generator.
+fn spelled(r: Range, spelling: u8, via_set: bool) -> Result<(), (String, String)> {
+    use std::ops::Bound::*;
+    let hi_incl = r.max();
+    let bounds = match spelling {
+        0 => (Included(r.lo), Included(hi_incl)), 1 => (Included(r.lo), Excluded(hi_incl + 1)),
+        2 if r.lo >= 1 => (Excluded(r.lo - 1), Included(hi_incl)), 3 if r.lo >= 1 => (Excluded(r.lo - 1), Excluded(hi_incl + 1)),
+        4 if r.lo == 0 => (Unbounded, Included(hi_incl)), 5 if r.lo == 0 => (Unbounded, Excluded(hi_incl + 1)),
+        _ => return Ok(()),
+    };
+    let asked: Rc<RefCell<Vec<(u32, u32, bool)>>> = Rc::new(RefCell::new(vec![]));
+    let a2 = asked.clone();
+    verif::set_timer_sampler(Some(Box::new(move |start, end, incl| { a2.borrow_mut().push((start, end, incl)); Some(start) })));
+    let res = catch(move || {
+        let mut t = if via_set { let mut t = TimerDevice::new(Some(1), 7..=9, 0x81, 4); t.set_range(bounds); t.reset_remaining(); t } else { TimerDevice::new(Some(1), bounds, 0x81, 4) };
+        t.enabled = true;
+        for _ in 0..40 { let _ = t.poll_interrupt(); }
+    });
+    verif::set_timer_sampler(None);
+    let what = format!("timer whose range {}..={hi_incl} is spelled {} ({})", r.lo, ["a..=b", "a..b", "(excluded a-1)..=b", "(excluded a-1)..b", "..=b", "..b"][spelling as usize], if via_set { "set_range" } else { "new" });
+    if let Err(p) = res { return Err((format!("panic:{}", panic_site(&p)), format!("{what}: {p}"))); }
+    for (i, (start, end, incl)) in asked.borrow().iter().enumerate() {
+        if via_set && i == 0 && (*start, *end, *incl) == (7, 9, true) { continue; } // the draw made for the construction-time range
+        let top = if *incl { *end } else { end.saturating_sub(1) };
+        if (*start, top) != (r.lo, hi_incl) { return Err((format!("range-spelling:{}", ["incl", "excl-end", "excl-start", "excl-both", "unbounded-start", "unbounded-start-excl-end"][spelling as usize]), format!("{what}: the generator is asked for values {start}..={top}"))); }
+    }
+    Ok(())
+}
 fn gaps_of(mut t: TimerDevice, polls: u32) -> Vec<u32> {
     t.enabled = true;
     let mut gaps = vec![]; let mut since: Option<u32> = None;
@@ -384,6 +418,7 @@ fn in_simulator(r: Range, prio: u8) -> Result<(), (String, String)> {
 }
 
 pub fn replay(case: &str) -> Option<String> {
+    if let Some(r) = case.strip_prefix("sp:") { let (a, b) = r.split_once(':')?; let k: u8 = b.parse().ok()?; return spelled(*ranges().get(a.parse::<usize>().ok()?)?, k % 6, k >= 6).err().map(|(s, d)| format!("[{s}] {d}")); }
     if let Some(r) = case.strip_prefix("ux:") { let (a, b) = r.split_once(':')?; return free_running_spelled(*ranges().get(a.parse::<usize>().ok()?)?, b.parse().ok()?, true).err().map(|(s, d)| format!("[excluded-start:{s}] {d}")); }
     if let Some(r) = case.strip_prefix("u:") { let (a, b) = r.split_once(':')?; return free_running(*ranges().get(a.parse::<usize>().ok()?)?, b.parse().ok()?).err().map(|(s, d)| format!("[{s}] {d}")); }
     let p: Vec<&str> = case.splitn(4, ':').collect();
